@@ -33,6 +33,10 @@ CHECKS = {
                 technique="exhaustive enumeration of dtype x shape x bit-pattern fill x representation x destination against an independent packed little-endian reference and the ONNX codec",
                 text="All 25 element types (+STRING) x 9 shapes (scalar, empty, odd counts, high rank, zero-sized dim) x bit-pattern fills (every pattern of every <=8-bit type at every position parity, every 16-bit pattern, boundary/non-finite sets for wider types) are pushed through every representation (array-backed incl. non-contiguous/strided/raw-carrier/array-protocol-only/dlpack-only, packed, proto-backed via raw_data and via the typed field, external at 5 offset/tail/length combinations, lazy, ir.tensor, serde round trip, torch adapter incl. views into larger storage) and 6 tofile destinations; dtype/shape/size/nbytes, element bit patterns from numpy(), tobytes() and every tofile() landing are compared with an independent reference encoding, cross-validated by onnx.numpy_helper.",
                 note="Little-endian host; ml_dtypes containers are trusted as bit containers; NaN-payload fills are skipped for float_data/double_data."),
+    "C08": dict(level="fault_enumeration", engine="E5-fsfault", design="4/C08",
+                technique="exhaustive crash-point / fault enumeration over the intercepted file-system effects of the real save path (dry run numbers the effects; every index x {errno class, crash-before, torn write})",
+                text="For each history (fresh/existing/symlinked destination, in-place re-save of a loaded model with multi-chunk streaming, threshold mixes, external source from another file, lazy tensor or callback raising RuntimeError/KeyboardInterrupt/SystemExit/BaseException, sharded saves with neighbours and name collisions) every library-visible file-system effect of ir.save is tried as an injected OSError (per errno class), as process death before the effect (forked child) and, for writes, as a torn write. After an exception: every pre-existing file byte- and mode-identical, no staging file/dir left, external tensors valid and readable, model holds the same tensor objects. After death: every pre-existing data file holds exactly its old bytes or exactly the complete new bytes.",
+                note="POSIX rename atomicity and page-cache survival of process death assumed; effects intercepted at library-call granularity; serial writer (the concurrent failure path is C09)."),
 }
 
 NOT_YET = {}
@@ -76,6 +80,8 @@ def main():
              "kind_free_text": "stateless enumeration of all event sequences up to a depth with trace monitors"},
             {"name": "E6-enum", "path": "mc/props/", "serves_properties": ["C04", "C12", "C16"],
              "kind_free_text": "small-scope exhaustive input/structure enumeration with independent reference oracles"},
+            {"name": "E5-fsfault", "path": "mc/fsfault.py", "serves_properties": ["C08"],
+             "kind_free_text": "file-system effect interception + exhaustive fault/crash/torn-write plans"},
             {"name": "E4-sched", "path": "mc/sched.py", "serves_properties": ["C09"],
              "kind_free_text": "cooperative baton scheduler for real threads + stateless DFS with delay/preemption bounding"},
         ],
